@@ -1,117 +1,199 @@
 #!/usr/bin/env python3
-"""tools/seedeval.py SEED_DIR PROP [--thorough] [--keep NAME]
-Confirms an independently written breaking change and runs the property's check against it.
- 1. scratch worktree: patch applies, tree builds, demo FAILS with the patch and PASSES without,
-    the existing test suite (stable tests of BASELINE.json) still passes with the patch;
- 2. applies the patch to /repo, runs ./check PROP --tier quick (and thorough if asked / missed), reverts;
- 3. with --keep NAME stores everything under /verif/seeded/NAME/.
+"""tools/seedeval.py validate SEED_DIR NAME      -- scratch-worktree confirmation of a seeded change
+   tools/seedeval.py check    SEED_DIR NAME PROP [--thorough]  -- run my check against it in /repo
+   tools/seedeval.py keep     SEED_DIR NAME      -- store under /verif/seeded/NAME with both results
+
+validate: in a scratch worktree (/tmp/seedcheck/NAME): the patch applies, the tree builds, the
+  demonstration FAILS with the patch and PASSES without it, and the existing test suite still passes
+  with the patch (packages that fail are re-run alone up to twice: the pinned suite has timing tests
+  that flake when the machine is loaded).
+check: applies the patch to /repo (which must be clean), runs ./check PROP --tier quick (and thorough
+  when asked or when quick missed it), and reverts /repo straight afterwards.
+Results are written to /verif/work/seedeval/NAME.{validate,check}.json.
 """
-import json, os, shutil, subprocess, sys, time
+import json, os, re, shutil, subprocess, sys, time
 
 ENV = dict(os.environ, GOFLAGS="-mod=mod", GOPROXY="off", GOSUMDB="off", GOTOOLCHAIN="local")
+OUT = "/verif/work/seedeval"
+HZ_KNOWN_FAIL = ("TestIdlGenerator_GenModel", "TestRun", "TestPlugin_Handle")
+
 
 def sh(cmd, cwd=None, timeout=3600):
-    p = subprocess.run(cmd, shell=True, cwd=cwd, env=ENV, capture_output=True, text=True, timeout=timeout)
-    return p.returncode, (p.stdout + p.stderr)
+    try:
+        p = subprocess.run(cmd, shell=True, cwd=cwd, env=ENV, capture_output=True, text=True, timeout=timeout, executable="/bin/bash")
+        return p.returncode, (p.stdout + p.stderr)
+    except subprocess.TimeoutExpired as e:
+        return 124, "TIMEOUT " + str(e)
 
-def main():
-    seed, prop = sys.argv[1], sys.argv[2]
-    thorough = "--thorough" in sys.argv
-    keep = sys.argv[sys.argv.index("--keep") + 1] if "--keep" in sys.argv else None
-    skip_suite = "--skip-suite" in sys.argv
+
+def demo_targets(seed, meta):
+    """[(src, relative destination)] for the demonstration files."""
+    files = [f for f in sorted(os.listdir(seed)) if f not in ("patch.diff", "meta.json") and "FOREIGN" not in f and not f.endswith(".diff") and not f.endswith(".patch")]
+    text = str(meta.get("demo_path", "")) + " " + str(meta.get("demo_cmd", ""))
+    paths = re.findall(r"(?<![\w/])((?:pkg|internal|cmd)/[\w/.\-]*)", text)
+    out = []
+    for f in files:
+        dst = None
+        for p in paths:
+            if p.endswith("/" + f):
+                dst = p
+                break
+        if dst is None:
+            for p in paths:
+                if p.endswith("_test.go") and len([x for x in files if x.endswith(".go")]) == 1 and f.endswith(".go"):
+                    dst = p
+                    break
+        if dst is None:
+            for p in paths:
+                if not p.endswith(".go"):
+                    dst = os.path.join(p.rstrip("/"), f)
+                    break
+                dst = os.path.join(os.path.dirname(p), f)
+                break
+        out.append((os.path.join(seed, f), dst))
+    return out
+
+
+def validate(seed, name):
     meta = json.load(open(os.path.join(seed, "meta.json")))
     patch = os.path.join(seed, "patch.diff")
-    wt = "/tmp/seedcheck/wt"
+    wt = "/tmp/seedcheck/" + name
     sh("git -C /repo worktree remove --force %s" % wt)
     shutil.rmtree(wt, ignore_errors=True)
     os.makedirs("/tmp/seedcheck", exist_ok=True)
-    rc, out = sh("git -C /repo worktree add -q --detach %s HEAD" % wt)
-    res = {"property": prop, "seed_dir": seed, "meta": meta}
+    sh("git -C /repo worktree add -q --detach %s HEAD" % wt)
+    res = {"name": name}
     try:
         rc, out = sh("git apply --check %s && git apply %s" % (patch, patch), cwd=wt)
         res["patch_applies"] = rc == 0
         if rc != 0:
-            print("PATCH DOES NOT APPLY:", out[-500:]); return finish(res, keep, seed)
+            res["error"] = out[-500:]
+            return res
+        rc, out = sh("git diff --stat | tail -1", cwd=wt)
+        res["diffstat"] = out.strip()
+        touches_hz = "cmd/hz" in open(patch).read()
         rc, out = sh("go build ./... && (cd cmd/hz && go build ./...)", cwd=wt)
         res["builds"] = rc == 0
         if rc != 0:
-            print("DOES NOT BUILD:", out[-800:]); return finish(res, keep, seed)
-        # demo
-        demo_path = meta.get("demo_path", "")
-        demo_cmd = meta.get("demo_cmd", "")
-        demo_files = [f for f in os.listdir(seed) if f not in ("patch.diff", "meta.json")]
-        def place():
-            for f in demo_files:
-                src = os.path.join(seed, f)
-                dst = os.path.join(wt, demo_path) if demo_path and len(demo_files) == 1 else os.path.join(wt, os.path.dirname(demo_path) if demo_path.endswith(".go") else demo_path, f)
-                if os.path.isdir(src):
-                    shutil.copytree(src, dst, dirs_exist_ok=True)
-                else:
-                    os.makedirs(os.path.dirname(dst), exist_ok=True)
-                    shutil.copyfile(src, dst)
-        place()
-        cmd = demo_cmd.replace(seed.rsplit("/SEED", 1)[0], wt)
-        rc1, out1 = sh(cmd, cwd=wt, timeout=900)
-        res["demo_fails_with_change"] = rc1 != 0
+            res["error"] = out[-800:]
+            return res
+        targets = demo_targets(seed, meta)
+        res["demo_files"] = [d for _, d in targets]
+        for src, dst in targets:
+            if dst is None:
+                res["error"] = "cannot place demo file " + src
+                return res
+            full = os.path.join(wt, dst)
+            os.makedirs(os.path.dirname(full), exist_ok=True)
+            if os.path.isdir(src):
+                shutil.copytree(src, full, dirs_exist_ok=True)
+            else:
+                shutil.copyfile(src, full)
+        cmd = str(meta.get("demo_cmd", ""))
+        cmd = re.sub(r"/tmp/seed/C\d\d", wt, cmd)
+        cmd = cmd.replace("<repo root>", wt)
+        cmd = re.sub(r"cp SEED_[AB]/\S+ \S+ && ", "", cmd)  # the demo file is already placed
+        res["demo_cmd"] = cmd
+        rc1, out1 = sh(cmd, cwd=wt, timeout=1500)
         sh("git apply -R %s" % patch, cwd=wt)
-        rc2, out2 = sh(cmd, cwd=wt, timeout=900)
+        rc2, out2 = sh(cmd, cwd=wt, timeout=1500)
+        res["demo_fails_with_change"] = rc1 != 0 and ("FAIL" in out1 or "panic" in out1)
         res["demo_passes_without_change"] = rc2 == 0
-        res["demo_output_with_change"] = out1[-1500:]
-        print("demo with change rc=%d, without rc=%d" % (rc1, rc2))
+        res["demo_output_with_change"] = out1[-1800:]
         if rc2 != 0:
-            print(out2[-1200:])
-        # remove demo, re-apply, run suite
+            res["demo_output_without_change"] = out2[-1500:]
+        # remove the demo, re-apply, run the existing suite
         sh("git clean -fdq && git checkout -q -- .", cwd=wt)
         sh("git apply %s" % patch, cwd=wt)
-        if not skip_suite:
-            t0 = time.time()
-            rc, out = sh("go test -vet=off -count=1 -timeout 25m ./... 2>&1 | grep -v '^ok\\|no test files' | head -40", cwd=wt, timeout=2400)
-            rc_hz, out_hz = sh("go test -vet=off -count=1 ./... 2>&1 | grep -- '--- FAIL' | head", cwd=os.path.join(wt, "cmd/hz"), timeout=1200)
-            fails = [l for l in out.splitlines() if l.startswith("--- FAIL") or l.startswith("FAIL")]
-            hzfails = [l for l in out_hz.splitlines() if "TestIdlGenerator_GenModel" not in l and "TestRun" not in l and "TestPlugin_Handle" not in l]
-            res["suite_passes_with_change"] = not fails and not hzfails
-            res["suite_output"] = (out + out_hz)[-1500:]
-            print("suite with change: %s (%.0fs)" % ("pass" if res["suite_passes_with_change"] else "FAIL", time.time() - t0))
-            if fails or hzfails:
-                print(out[-1500:], out_hz[-500:])
+        t0 = time.time()
+        rc, out = sh("go test -vet=off -count=1 -timeout 25m ./... 2>&1 | grep -v '^ok\\|no test files'", cwd=wt, timeout=2400)
+        failed_pkgs = sorted(set(re.findall(r"^FAIL\s+(github\.com/cloudwego/hertz\S*)", out, re.M)))
+        failed_tests = sorted(set(re.findall(r"^\s*--- FAIL: (\S+)", out, re.M)))
+        res["suite_first_run_failures"] = failed_tests
+        still = []
+        for pkg in failed_pkgs:
+            ok = False
+            for _ in range(2):
+                rc, o2 = sh("go test -vet=off -count=1 -timeout 20m %s" % pkg, cwd=wt, timeout=1500)
+                if rc == 0:
+                    ok = True
+                    break
+            if not ok:
+                still.append(pkg + ": " + ",".join(re.findall(r"--- FAIL: (\S+)", o2))[:300])
+        hzfails = []
+        if touches_hz:
+            rc_hz, out_hz = sh("go test -vet=off -count=1 ./... 2>&1 | grep -- '--- FAIL'", cwd=os.path.join(wt, "cmd/hz"), timeout=1500)
+            hzfails = [l.strip() for l in out_hz.splitlines() if not any(k in l for k in HZ_KNOWN_FAIL)]
+        res["suite_passes_with_change"] = not still and not hzfails
+        res["suite_failures_persisting"] = still + hzfails
+        res["suite_seconds"] = int(time.time() - t0)
     finally:
         sh("git -C /repo worktree remove --force %s" % wt)
         shutil.rmtree(wt, ignore_errors=True)
-    # run my check against it
+    return res
+
+
+def check(seed, name, prop, thorough):
+    patch = os.path.join(seed, "patch.diff")
+    res = {"name": name, "property": prop}
     rc, out = sh("git -C /repo status --porcelain")
     if out.strip():
-        print("REFUSING: /repo is not clean:", out); return finish(res, keep, seed)
+        res["error"] = "/repo is not clean: " + out
+        return res
     rc, out = sh("git -C /repo apply %s" % patch)
+    if rc != 0:
+        res["error"] = "apply failed: " + out
+        return res
     try:
         t0 = time.time()
         rc, out = sh("./check %s --tier quick" % prop, cwd="/verif", timeout=3600)
         res["quick_rc"] = rc
-        res["quick_tail"] = "\n".join(out.strip().splitlines()[-6:])[-1500:]
-        print("quick: rc=%d (%.0fs)" % (rc, time.time() - t0)); print(res["quick_tail"][-700:])
-        if thorough or rc == 0:
+        res["quick_seconds"] = int(time.time() - t0)
+        res["quick_tail"] = "\n".join(l[:400] for l in out.strip().splitlines()[-14:])
+        if thorough or rc != 1:
             t0 = time.time()
             rc, out = sh("./check %s --tier thorough" % prop, cwd="/verif", timeout=7200)
             res["thorough_rc"] = rc
-            res["thorough_tail"] = "\n".join(out.strip().splitlines()[-6:])[-1500:]
-            print("thorough: rc=%d (%.0fs)" % (rc, time.time() - t0)); print(res["thorough_tail"][-700:])
+            res["thorough_seconds"] = int(time.time() - t0)
+            res["thorough_tail"] = "\n".join(l[:400] for l in out.strip().splitlines()[-14:])
     finally:
         sh("git -C /repo checkout -- . && git -C /repo clean -fdq")
-    return finish(res, keep, seed)
+    return res
 
-def finish(res, keep, seed):
-    if keep:
-        d = os.path.join("/verif/seeded", keep)
+
+def main():
+    mode, seed, name = sys.argv[1], sys.argv[2], sys.argv[3]
+    os.makedirs(OUT, exist_ok=True)
+    if mode == "validate":
+        res = validate(seed, name)
+        json.dump(res, open(os.path.join(OUT, name + ".validate.json"), "w"), indent=1)
+        print(name, json.dumps({k: v for k, v in res.items() if k in ("patch_applies", "builds", "demo_fails_with_change", "demo_passes_without_change", "suite_passes_with_change", "suite_failures_persisting", "error")}))
+    elif mode == "check":
+        res = check(seed, name, sys.argv[4], "--thorough" in sys.argv)
+        json.dump(res, open(os.path.join(OUT, name + ".check.json"), "w"), indent=1)
+        print(name, json.dumps({k: v for k, v in res.items() if k in ("quick_rc", "thorough_rc", "error")}))
+        print(res.get("quick_tail", "")[-900:])
+        if "thorough_tail" in res:
+            print(res["thorough_tail"][-900:])
+    elif mode == "keep":
+        d = os.path.join("/verif/seeded", name)
         os.makedirs(d, exist_ok=True)
         for f in os.listdir(seed):
+            if "FOREIGN" in f:
+                continue
             src = os.path.join(seed, f)
             if os.path.isdir(src):
                 shutil.copytree(src, os.path.join(d, f), dirs_exist_ok=True)
             else:
                 shutil.copyfile(src, os.path.join(d, f))
         m = json.load(open(os.path.join(d, "meta.json")))
-        m["verification"] = {k: v for k, v in res.items() if k not in ("meta", "seed_dir")}
+        for k in ("validate", "check"):
+            p = os.path.join(OUT, "%s.%s.json" % (name, k))
+            if os.path.exists(p):
+                m["verification_" + k] = json.load(open(p))
         json.dump(m, open(os.path.join(d, "meta.json"), "w"), indent=1)
-    print(json.dumps({k: v for k, v in res.items() if k in ("patch_applies", "builds", "demo_fails_with_change", "demo_passes_without_change", "suite_passes_with_change", "quick_rc", "thorough_rc")}))
+        print("kept", d)
+
 
 if __name__ == "__main__":
     main()
